@@ -8,6 +8,8 @@ import (
 	"time"
 
 	"github.com/google/uuid"
+	"go.dedis.ch/onet/v3"
+	"go.dedis.ch/onet/v3/network"
 	"onetverif/harness/fix"
 	"onetverif/harness/h"
 )
@@ -32,6 +34,12 @@ import (
 // how many messages sit in the channel once the reader has nothing more to do
 // (barrier message behind everything when no handler is blocked); `c05 chread`
 // (take one message from the channel if there is one), `c05 chdrain` (take all).
+// `c05 chhold <m>` (idle, open instance): a channel message is handed over and
+// the reader is held between the pop and dispatchChannel's tests (the harness
+// holds the lock of the tree store, Overlay.VerifC05HoldTrees: the reader waits
+// in createValueAndVerify -> Tree()); meanwhile only chread / chdrain / chclose
+// happen; `c05 chrel` lets the reader go on: the tests (room? closing?) must be
+// made on the channel and the flag as they are then.
 
 type c05chanRun struct {
 	mu   sync.Mutex
@@ -48,6 +56,7 @@ type c05chanRun struct {
 	expect       []int        // content of the channel, oldest first
 	rejected     map[int]bool // found the channel full
 	known        map[int]bool // channel messages handed over so far
+	late         map[int]bool // popped before the close, dispatched after it: must not be sent
 	closed       bool
 }
 
@@ -78,7 +87,10 @@ func c05chan(c *h.Ctx, cs *h.Case) {
 	defer fix.ForgetChanCap(round)
 	tok := fix.ChanTokenFor(ct.t, ct.target, round)
 	tokID := tok.ID().String()
-	r := &c05chanRun{gate: make(chan struct{}, 1000), rejected: map[int]bool{}, known: map[int]bool{}}
+	r := &c05chanRun{gate: make(chan struct{}, 1000), rejected: map[int]bool{}, known: map[int]bool{}, late: map[int]bool{}}
+	held, heldM := false, 0
+	var heldRelease func()
+	var doneCh chan struct{}
 	r.cond = sync.NewCond(&r.mu)
 	fix.Prepare = func(rec *fix.Rec) {
 		if rec.Tni.Token().ID().String() != tokID {
@@ -110,6 +122,15 @@ func c05chan(c *h.Ctx, cs *h.Case) {
 		}
 	}
 	defer func() {
+		if held && heldRelease != nil {
+			heldRelease()
+		}
+		if doneCh != nil {
+			select {
+			case <-doneCh:
+			case <-time.After(10 * time.Second):
+			}
+		}
 		fix.Prepare = nil
 		for j := 0; j < 1000; j++ {
 			select {
@@ -208,6 +229,9 @@ func c05chan(c *h.Ctx, cs *h.Case) {
 			pc = fmt.Sprintf("in:%d", r.running)
 		}
 		r.mu.Unlock()
+		if held {
+			pc = fmt.Sprintf("held:%d", heldM)
+		}
 		return fmt.Sprintf("%s len=%d", pc, chanLen())
 	}
 	// the documented fate of a channel message dispatched now
@@ -237,6 +261,8 @@ func c05chan(c *h.Ctx, cs *h.Case) {
 	took := func(v int) {
 		nRead++
 		switch {
+		case r.late[v]:
+			cs.Fail("message-sent-after-close", fmt.Sprintf("message %d was popped by the reader before the instance was closed and dispatched after it; it is sent into the protocol's channel all the same (read #%d)", v, nRead))
 		case r.rejected[v]:
 			cs.Fail("rejected-message-delivered", fmt.Sprintf("message %d found the channel full (channel of %d) and was rejected with 'channel too small'; it is delivered all the same later on (read #%d)", v, capacity, nRead))
 		case !r.known[v]:
@@ -274,9 +300,109 @@ func c05chan(c *h.Ctx, cs *h.Case) {
 			cs.Impl = append(cs.Impl, "bad-op")
 			continue
 		}
+		if held && ((len(tk) == 3 && (tk[1] == "chsend" || tk[1] == "chacc" || tk[1] == "chwait" || tk[1] == "chhold")) || (len(tk) == 2 && tk[1] == "chexit")) {
+			cs.Impl = append(cs.Impl, "held")
+			continue
+		}
 		switch {
 		case tk[1] == "chstart" && len(tk) == 3:
 			cs.Impl = append(cs.Impl, "ok")
+		case tk[1] == "chhold" && len(tk) == 3:
+			m, err := strconv.Atoi(tk[2])
+			if err != nil || m < 0 || strings.HasPrefix(tk[2], "+") {
+				cs.Impl = append(cs.Impl, "bad-op")
+				continue
+			}
+			r.mu.Lock()
+			busy, closed, rec := r.entered > r.exited, r.closed, r.rec
+			r.mu.Unlock()
+			if closed || busy {
+				cs.Impl = append(cs.Impl, "not-idle")
+				continue
+			}
+			if rec == nil {
+				// the instance is made by the first message: a barrier message
+				nSync++
+				want := nSync
+				okB := inject(&fix.MSync{V: want})
+				if okB {
+					okB = waitFor(6*time.Second, func() bool { return r.rec != nil })
+				}
+				r.mu.Lock()
+				rec = r.rec
+				r.mu.Unlock()
+				for okB {
+					select {
+					case v := <-rec.SyncCh:
+						if v == want {
+							break
+						}
+						continue
+					case <-time.After(6 * time.Second):
+						okB = false
+					}
+					break
+				}
+				if !okB {
+					stuck("the first message of the run (a barrier message) is never handled")
+					continue
+				}
+			}
+			r.known[m] = true
+			heldRelease = f.cl.Overlay(ct.srv).VerifC05HoldTrees()
+			held, heldM = true, m
+			rec.Tni.ProcessProtocolMsg(&onet.ProtocolMsg{From: fromTok, To: tok, ServerIdentity: from.ServerIdentity,
+				Msg: &fix.M4{V: m}, MsgType: network.MessageType(&fix.M4{}), Size: 1})
+			popped := false
+			for dl := time.Now().Add(6 * time.Second); time.Now().Before(dl); time.Sleep(200 * time.Microsecond) {
+				if q, _ := rec.Tni.VerifC05QueueState(); q == 0 {
+					popped = true
+					break
+				}
+			}
+			if !popped {
+				heldRelease()
+				held = false
+				stuck(fmt.Sprintf("the instance is idle with channel message %d queued and its reader never takes it", m))
+				continue
+			}
+			c.Count("op=chhold")
+			cs.Impl = append(cs.Impl, state())
+		case tk[1] == "chrel" && len(tk) == 2:
+			if !held {
+				cs.Impl = append(cs.Impl, "not-held")
+				continue
+			}
+			// the documented fate of the message, decided now
+			if r.closed {
+				r.late[heldM] = true
+				c.Count("chan: popped before the close, dispatched after it")
+			} else {
+				before := len(r.rejected)
+				dispatchChan(heldM)
+				nReject += len(r.rejected) - before
+			}
+			heldRelease()
+			held = false
+			if doneCh != nil {
+				select {
+				case <-doneCh:
+				case <-time.After(10 * time.Second):
+					stuck("Done() does not return after the tree store was released")
+					continue
+				}
+				doneCh = nil
+			}
+			if r.closed {
+				// no barrier can pass a closed instance: the reader needs a few instructions to its test of the
+				// closing flag; the pause can only let a broken tree be missed
+				time.Sleep(100 * time.Millisecond)
+			} else if !barrier() {
+				stuck(fmt.Sprintf("a barrier message behind message %d is never handled although no handler is running", heldM))
+				continue
+			}
+			checkLen(op)
+			cs.Impl = append(cs.Impl, state())
 		case (tk[1] == "chsend" || tk[1] == "chacc") && len(tk) == 3:
 			m, err := strconv.Atoi(tk[2])
 			if err != nil {
@@ -373,6 +499,31 @@ func c05chan(c *h.Ctx, cs *h.Case) {
 			r.mu.Unlock()
 			if rec == nil {
 				cs.Impl = append(cs.Impl, "no-instance")
+				continue
+			}
+			if held {
+				// Done() closes the dispatch first and then needs the tree store: it finishes after chrel
+				if doneCh == nil && !r.closed {
+					doneCh = make(chan struct{})
+					dc := doneCh
+					go func() { rec.Tni.Done(); close(dc) }()
+				}
+				isClosing := false
+				for dl := time.Now().Add(6 * time.Second); time.Now().Before(dl); time.Sleep(200 * time.Microsecond) {
+					if _, cl := rec.Tni.VerifC05QueueState(); cl {
+						isClosing = true
+						break
+					}
+				}
+				if !isClosing {
+					stuck("Done() does not close the dispatch of the instance")
+					continue
+				}
+				r.mu.Lock()
+				r.closed = true
+				r.mu.Unlock()
+				checkLen(op)
+				cs.Impl = append(cs.Impl, state())
 				continue
 			}
 			if !barrier() {
@@ -490,6 +641,15 @@ func c05chanGen(c *h.Ctx, yield func(*h.Case)) {
 	// closing: what sits in the channel stays readable, nothing new arrives
 	yield(&h.Case{Class: "chan-corpus", Ops: []string{"c05 chstart 2", "c05 chsend 1", "c05 chacc 10", "c05 chsend 2",
 		"c05 chclose", "c05 chsend 3", "c05 chexit", "c05 chread", "c05 chdrain"}})
+	// the reader held between the pop and the tests: closed meanwhile -> message 1 is not sent (fate `late`)
+	yield(&h.Case{Class: "chan-corpus", Ops: []string{"c05 chstart 1", "c05 chsend 0", "c05 chread", "c05 chhold 1", "c05 chclose",
+		"c05 chrel", "c05 chread", "c05 chdrain"}})
+	// … popped while the channel was full, the protocol reads, then the tests: room, message 1 is sent
+	yield(&h.Case{Class: "chan-corpus", Ops: []string{"c05 chstart 1", "c05 chsend 0", "c05 chhold 1", "c05 chsend 7", "c05 chread",
+		"c05 chrel", "c05 chread", "c05 chdrain"}})
+	// … held as the very first message of the run, the channel stays full: rejected at the tests
+	yield(&h.Case{Class: "chan-corpus", Ops: []string{"c05 chstart 2", "c05 chhold 1", "c05 chrel", "c05 chsend 2", "c05 chhold 3",
+		"c05 chrel", "c05 chwait 280", "c05 chdrain", "c05 chrel"}})
 	waits := 0
 	for n := 0; n < c.Pick(36, 600); n++ {
 		capacity := 1 + r.Intn(4)
@@ -502,6 +662,31 @@ func c05chanGen(c *h.Ctx, yield func(*h.Case)) {
 		inChan, busy, queued, rejected, closed := 0, false, 0, 0, false
 		withHandlers := r.Intn(3) == 0
 		for j := 0; j < 6+r.Intn(24); j++ {
+			if !busy && !closed && r.Intn(6) == 0 {
+				// the reader held between the pop and dispatchChannel's tests; reads and a close fall there
+				m++
+				ops = append(ops, fmt.Sprintf("c05 chhold %d", m))
+				for k := r.Intn(3); k > 0; k-- {
+					if r.Intn(3) == 0 {
+						ops = append(ops, "c05 chclose")
+						closed = true
+					} else {
+						ops = append(ops, "c05 chread")
+						if inChan > 0 {
+							inChan--
+						}
+					}
+				}
+				ops = append(ops, "c05 chrel")
+				if closed {
+					c.Count("chan: close between pop and tests")
+				} else if inChan < capacity {
+					inChan++
+				} else {
+					rejected++
+				}
+				continue
+			}
 			switch x := r.Intn(20); {
 			case x < 9:
 				m++
